@@ -6,6 +6,7 @@ import (
 	"go/token"
 	"go/types"
 	"sort"
+	"strconv"
 	"strings"
 
 	"golang.org/x/tools/go/ssa"
@@ -298,6 +299,90 @@ func checkC15(c *Ctx) {
 		}
 		if nFraming == 0 {
 			r.Unk("C15.9", "framing readers", token.NoPos, "", "no function that parses a stream with binary.Read / io.ReadFull found")
+		}
+	}
+
+	// ---- C15.10 the message decoder refuses a message only where reading a field failed: whatever the encoder wrote can
+	// be read back, so a refusal that is computed from the header counts (a minimum-size estimate, a limit) is a
+	// refusal of messages the encoder produces
+	r.Rule("C15.10", "readMessage fails only with the error of a field read", 3)
+	if f := c.fn("C15.10", "pkg/registrars/dns-registrar/dns", "", "readMessage"); f != nil {
+		n := 0
+		var fromCall func(v ssa.Value, d int) bool
+		fromCall = func(v ssa.Value, d int) bool {
+			if d > 4 {
+				return false
+			}
+			switch x := v.(type) {
+			case *ssa.Extract:
+				_, ok := x.Tuple.(*ssa.Call)
+				return ok
+			case *ssa.Call:
+				return true
+			case *ssa.Phi:
+				for _, e := range x.Edges {
+					if !fromCall(e, d+1) {
+						return false
+					}
+				}
+				return len(x.Edges) > 0
+			}
+			return false
+		}
+		eachInstr(f, func(in ssa.Instruction) {
+			ret, ok := in.(*ssa.Return)
+			if !ok || len(ret.Results) != 2 || ret.Block().Comment == "recover" {
+				return
+			}
+			ev := returnedValue(ret, 1, nil)
+			if k, isC := ev.(*ssa.Const); isC && k.Value == nil {
+				return
+			}
+			n++
+			r.Check(fromCall(ev, 0), "C15.10", fmt.Sprintf("readMessage: error return #%d hands on the error of a read", n), ret.Pos(), fnName(f), firstN(pathOf(ev), 60),
+				"readMessage refuses a message with "+firstN(pathOf(ev), 60)+", an error of its own making rather than the error of a field read: a check computed from the header (minimum sizes, limits) refuses well-formed messages the encoder produces (an OPT record with the one-octet root name is 11 octets)")
+		})
+		if n == 0 {
+			r.Unk("C15.10", "readMessage: error returns", f.Pos(), fnName(f), "none found")
+		}
+	}
+
+	// ---- C15.11 the encoder compresses names only as deeply as the decoder follows: every compression pointer the
+	// encoder emits is written under a bound on the length of the pointer chain, and that bound is within the decoder's
+	// compressionPointerLimit
+	r.Rule("C15.11", "the encoder's compression-pointer chains stay within the decoder's pointer limit", 1)
+	if f := c.fn("C15.11", "pkg/registrars/dns-registrar/dns", "messageBuilder", "WriteName"); f != nil {
+		limit := constIntOf(c.P, repoMod+"/pkg/registrars/dns-registrar/dns", "compressionPointerLimit")
+		n := 0
+		eachInstr(f, func(in ssa.Instruction) {
+			call, ok := in.(*ssa.Call)
+			if !ok || calleeName(&call.Call) != "encoding/binary.Write" || !strings.Contains(pathOf(call.Call.Args[2]), "49152") {
+				return
+			}
+			n++
+			bound := int64(-1)
+			g := guardedM(f, in, func(cnd string, pol bool) bool {
+				l, rr, ok := splitLt(cnd)
+				if !ok || !pol {
+					return false
+				}
+				if k, err := strconv.ParseInt(rr, 10, 64); err == nil && !strings.Contains(l, "len(") && !strings.Contains(l, "16383") {
+					bound = k
+					return true
+				}
+				return false
+			})
+			okk := g && limit != "" && fmt.Sprint(bound) <= limit && len(fmt.Sprint(bound)) <= len(limit)
+			if g && limit != "" {
+				if lv, err := strconv.ParseInt(limit, 10, 64); err == nil {
+					okk = bound <= lv
+				}
+			}
+			r.Check(okk, "C15.11", "WriteName: a compression pointer is written only while the chain stays within the decoder's limit", in.Pos(), fnName(f), fmt.Sprintf("guarded by depth < %d; decoder limit %s", bound, limit),
+				"the encoder points at any earlier suffix, however many pointers that suffix already ends in; the decoder follows at most "+limit+" pointers per name (compressionPointerLimit): a message whose names each extend the previous one by a label (x1, x2.x1, x3.x2.x1, …, 12 of them) is encoded without error and refused by the decoder with ErrTooManyPointers")
+		})
+		if n == 0 {
+			r.Unk("C15.11", "WriteName: compression pointer", f.Pos(), fnName(f), "no binary.Write of 0xc000|ptr found")
 		}
 	}
 
